@@ -1,6 +1,7 @@
 mod arrgen;
 mod c01;
 mod c02;
+mod c05;
 mod c06;
 mod c07;
 mod c09;
@@ -53,6 +54,7 @@ fn main() {
         "C02" | "C12" => c02::run(&mut ctx),
         "C17" => c17::run(&mut ctx),
         "C18" => c18::run(&mut ctx),
+        "C05" => c05::run(&mut ctx),
         "C06" => c06::run(&mut ctx),
         "C07" => c07::run(&mut ctx),
         "C09" => c09::run(&mut ctx),
